@@ -150,6 +150,8 @@ def _check(prop, tier, seed, py, modname, plan, scratch, ev_path, t0):
             n += 1
             out = os.path.join(scratch, 'r%04d.json' % n)
             ct = s.get('timeout', 60)
+            if os.environ.get('VF_SMOKE'):
+                ct = int(os.environ['VF_SMOKE'])        # development aid: start every slice briefly (set-up and first paths), nothing is decided
             pt = s.get('path_timeout', max(10.0, ct ** 0.5))
             hseed = s.get('hashseed', (seed * 7919 + n) % 4294967295)
             tasks.append({'kind': 'slice', 'slice': s, 'twin': twin, 'out': out,
